@@ -50,25 +50,26 @@ type frame struct {
 	isLua   bool
 	lo, hi  int // lines of the innermost statement (or header) being executed
 	varargs []Value
-	tail    bool // entered by a tail call (level-2 positions are then not defined)
+	tail    bool   // entered by a tail call (level-2 positions are then not defined)
+	sc      *scope // scope in front of the statement being executed (for debug.getlocal)
 }
 
 // ---- interpreter ---------------------------------------------------------------------------------
 
 type Interp struct {
-	G          *Table
-	Registry   map[string]Value
-	StringMeta *Table
-	Events     []Event
-	Steps      int
-	MaxSteps   int
-	cur        *Coroutine
-	frames     []*frame
-	done       chan struct{}
-	coros      []*Coroutine
-	ChunkEnv   *Table
-	handlers   []Value // per running thread: active xpcall handlers (nil entry = pcall)
-	ccalls     int     // per running thread: nesting of C boundaries (for yield)
+	G                *Table
+	Registry         map[string]Value
+	StringMeta       *Table
+	Events           []Event
+	Steps            int
+	MaxSteps         int
+	cur              *Coroutine
+	frames           []*frame
+	done             chan struct{}
+	coros            []*Coroutine
+	ChunkEnv         *Table
+	handlers         []Value // per running thread: active xpcall handlers (nil entry = pcall)
+	ccalls           int     // per running thread: nesting of C boundaries (for yield)
 	HandlerRuns      int
 	ThreadEnvChanged bool
 	// hooks for checks
@@ -277,6 +278,7 @@ func (in *Interp) execBlock(b *Block, sc *scope, f *frame) (signal, []Value) {
 
 func (in *Interp) exec(st Stat, sc *scope, f *frame) (signal, []Value, *scope) {
 	in.step()
+	f.sc = sc
 	p := st.stat()
 	switch s := st.(type) {
 	case *LocalStat:
@@ -335,6 +337,7 @@ func (in *Interp) exec(st Stat, sc *scope, f *frame) (signal, []Value, *scope) {
 	case *WhileStat:
 		for {
 			setPos(f, p.First, p.HdrLast)
+			f.sc = sc
 			if !Truthy(in.eval1(s.Cond, sc, f)) {
 				break
 			}
@@ -360,6 +363,7 @@ func (in *Interp) exec(st Stat, sc *scope, f *frame) (signal, []Value, *scope) {
 				return sig, vals, sc
 			}
 			setPos(f, p.HdrFirst, p.Last)
+			f.sc = bsc2
 			if Truthy(in.eval1(s.Cond, bsc2, f)) {
 				break
 			}
